@@ -66,6 +66,20 @@ class CancelOutput(Monitor):
             if out[name] != init[var] and out[name] not in pubs.get(var, []):
                 run.viol("C10", "cancel_output_foreign", "output %s = %r is neither the initial value %r nor a value "
                          "published for %s" % (name, out[name], init[var], var), subject=name)
+        # a value published on a transition that ended at an engine command, or carried to a task with nothing to
+        # follow, reached a terminal context: the output may show it or something newer, never something older
+        if not led.stopped:
+            vals, racy, alts = led.expected_output()
+            if vals:
+                for name, spec, lang in run.model.output:
+                    if spec[0] != "ref" or spec[1] in racy or spec[1] not in vals or name not in out:
+                        continue
+                    ent = led.out_entries[spec[1]]
+                    older = [init.get(spec[1])] + [led.wvals[w] for w in ent.chain[:-1] if w in led.wvals]
+                    if out[name] != ent.value and out[name] in older and len(ent.chain) > 1:
+                        run.viol("C10", "cancel_output_older_than_published", "output %s = %r although %r was published for "
+                                 "%s on a transition that reached a terminal context" % (name, out[name], ent.value, spec[1]),
+                                 subject=name)
 
 
 def nontrivial(run, m):
